@@ -105,6 +105,13 @@ def shapes(tier):
         ([P("a", typeann=True), P("y")], [P("b", typeann=True), P("y")]),
         ([P("x"), P("y", default=True), P("k", "K", default=True)], [P("x"), P("y"), P("k", "K")]),
     ]
+    # an optional strictly positional parameter followed by an optional named one (the named one can be given by keyword)
+    out.append([[P("x", "O"), P("y", "O", default=True), P("z", default=True)]])
+    pairs += [
+        ([P("x"), P("y", default=True), P("z", default=True)], [P("x"), P("q", default=True), P("z", default=True)]),
+        ([P("x"), P("y"), P("z", default=True)], [P("x"), P("y", default=True)]),
+        ([P("x"), P("y")], [P("x"), P("y")]),
+    ]
     for a, b in pairs:
         out.append([a, b])
     out.append([[P("x")], [P("x"), P("y")], [P("x"), P("y"), P("z", default=True)]])
@@ -112,7 +119,6 @@ def shapes(tier):
     if tier == "thorough":
         out.append([[P("x"), P("y"), P("z"), P("w", default=True)]])
         out.append([[P("x"), P("k", "K"), P("j", "K", default=True), P("i", "K", default=True)]])
-        out.append([[P("x", "O"), P("y", "O", default=True), P("z", default=True)]])
     res = []
     for sh in out:
         res.append((sh, False))
